@@ -110,6 +110,8 @@ structure State where
   -- ghost history (never read by `step`'s guards; only for stating theorems)
   fed : List Frame := []               -- every frame ReadMessage returned, oldest first
   handed : List Nat := []              -- async calls in the order their completion was determined
+  arrCanon : List Nat := []            -- driver only: arrivals with the completions of one action sorted (no pipelining: their order is a race)
+  decHeld : Bool := false               -- driver only: the decode worker is parked at the harness gate `dec`
   invOk : Bool := true                 -- driver only: the run-time invariant check never failed on the way here
 
 def init (cfg : Cfg) : State := { cfg := cfg }
@@ -196,6 +198,7 @@ def upgradeByte (c : Call) : UInt8 :=
     finishCall the reader now runs itself. -/
 def readFrame (s : State) (f : Frame) : State × Option Nat :=
   if f.junk then (s, none) else
+  if s.msgsClosed then (s, none) else   -- after a local Close the codec refuses to decode (codec_client.go: closed)
   if s.shutdown then (s, none) else
   match lookup s.pending f.seq with
   | none => (s, none)
